@@ -29,7 +29,32 @@ type Wire struct {
 	Requests    int
 	// Hook, if set, is called at the entry of RoundTrip (scheduling point for C18).
 	Hook func(ctx context.Context, method, path string)
+	// BodyHook, if set, makes the handler receive the request body in pieces of BodyChunk bytes with a
+	// call of BodyHook before every piece but the first (scheduling points INSIDE a handler that streams
+	// its body, e.g. two uploads overlapping in the file system).
+	BodyHook  func(ctx context.Context, method, path string)
+	BodyChunk int
 }
+
+type hookedBody struct {
+	r     io.ReadCloser
+	n     int
+	reads int
+	hook  func()
+}
+
+func (b *hookedBody) Read(p []byte) (int, error) {
+	if b.reads > 0 {
+		b.hook()
+	}
+	b.reads++
+	if len(p) > b.n {
+		p = p[:b.n]
+	}
+	return b.r.Read(p)
+}
+
+func (b *hookedBody) Close() error { return b.r.Close() }
 
 func (w *Wire) RoundTrip(req *http.Request) (*http.Response, error) {
 	if w.Hook != nil {
@@ -51,6 +76,14 @@ func (w *Wire) RoundTrip(req *http.Request) (*http.Response, error) {
 	}
 	sreq = sreq.WithContext(req.Context())
 	sreq.RemoteAddr = "192.0.2.1:1234"
+	if w.BodyHook != nil && sreq.Body != nil && sreq.Body != http.NoBody {
+		ctx, m, pth := req.Context(), req.Method, req.URL.Path
+		n := w.BodyChunk
+		if n <= 0 {
+			n = 8
+		}
+		sreq.Body = &hookedBody{r: sreq.Body, n: n, hook: func() { w.BodyHook(ctx, m+"-body", pth) }}
+	}
 	rec := httptest.NewRecorder()
 	w.Handler.ServeHTTP(rec, sreq)
 	res := rec.Result()
